@@ -44,7 +44,7 @@ class FakeTransport:
 
 
 class World:
-    def __init__(self, daemon, act, reorg_limit, sched, base='/dev/shm', gated_storage=False, extra_env=None):
+    def __init__(self, daemon, act, reorg_limit, sched, base='/dev/shm', gated_storage=False, extra_env=None, dir=None):
         import electrumx.server.block_processor as bpmod
         import electrumx.server.db as dbmod
         import electrumx.server.mempool as mpmod
@@ -53,9 +53,12 @@ class World:
         self.mods = (bpmod, dbmod, mpmod, sessmod)
         self.bpmod, self.dbmod, self.mpmod, self.sessmod, self.ctlmod = bpmod, dbmod, mpmod, sessmod, ctlmod
         _counter[0] += 1
-        self.dir = os.path.join(base, f'evw_{os.getpid()}_{_counter[0]}')
-        shutil.rmtree(self.dir, ignore_errors=True)
-        os.makedirs(self.dir)
+        if dir is None:
+            self.dir = os.path.join(base, f'evw_{os.getpid()}_{_counter[0]}')
+            shutil.rmtree(self.dir, ignore_errors=True)
+            os.makedirs(self.dir)
+        else:
+            self.dir = dir           # a restart on an existing database directory
         self.env = make_env(self.dir, reorg_limit, extra_env)
         self.env.coin = type('VerifCoin', (self.env.coin,), {'GENESIS_ACTIVATION': act})
         self.daemon = daemon
@@ -204,7 +207,7 @@ class World:
                 await asyncio.sleep(0.01)
         self.run(_stop())
 
-    def destroy(self):
+    def destroy(self, keep_dir=False):
         try:
             if self.db.utxo_db:
                 self.db.utxo_db.close()
@@ -217,4 +220,5 @@ class World:
         except Exception:
             pass
         os.chdir('/')
-        shutil.rmtree(self.dir, ignore_errors=True)
+        if not keep_dir:
+            shutil.rmtree(self.dir, ignore_errors=True)
